@@ -1,6 +1,5 @@
 //! C18: ontology comparison reports exactly the differences.
 
-use super::common::*;
 use crate::drive;
 use crate::facts::{FactSet, RecFact, TermFact, KIND_NAMES};
 use crate::gen::GenCfg;
@@ -425,7 +424,7 @@ impl Monitor for C18 {
                 v.push(format!("edit:{e}:{rep}"));
             }
         }
-        for i in 0..tier.pick(800, 50_000) {
+        for i in 0..tier.pick(2000, 50_000) {
             v.push(format!("rnd:{i}"));
         }
         v
